@@ -186,6 +186,9 @@ def check_c02(pid, tier, seed, replay):
     M.validate_traces(ck, obs, 14, classify_c02, "T-retjump")
     tcases = tcases + rj
     ck.cov["vacuity"]["T_programs"] = len(tcases)
+    ck.cov["samples"] = ck.cov["samples"][:2]
+    ck.sample({"program": M.prog_text(tcases[0]["prog"])[:300], "stdin": ""})
+    ck.sample({"program": M.prog_text(tcases[len(tcases) // 2]["prog"])[:300]})
     mechanism_binding(ck, tcases[:250 if quick else 4000])
     ck.cov["rule"] = "M: HyOptimize refines HyMachine on every program of the slices; R: those programs through `hyeong run -O0/-O1/-O2`; T: loop/IO program families and seeded structured programs"
     return ck.finish()
